@@ -437,6 +437,11 @@ pub fn encode_with_fixed_block_size<T: Source>(
     }
 
     destruct_arc(parsink).finalize(|f: Frame| stream.add_frame(f));
+    // See the comment in `coding::encode_with_fixed_block_size`.
+    stream
+        .stream_info_mut()
+        .set_block_sizes(block_size, block_size)
+        .unwrap();
 
     stream
         .stream_info_mut()
